@@ -97,7 +97,7 @@ func checkC02(c c02Case, rec *Rec) *Violation {
 				// "match the hostname": the independent reference evaluator where the entry is a
 				// mask rule with a model, the rule's own Match for regex patterns and model-less lines
 				matches := ru.Match(mkReq(q))
-				if e.Model != nil && isMaskPattern(e.Model.Pat) {
+				if e.Model != nil && (isMaskPattern(e.Model.Pat) || isRegexText(e.Model.Pat)) {
 					matches, _ = refMatch(*e.Model, q)
 				}
 				if c02Applicable(e.Model) && matches {
@@ -233,7 +233,8 @@ func genC02(t *rapid.T) c02Case {
 		hostsU = append(hostsU, cp[0], cp[1])
 	}
 	netPats := []string{"||example.org^", "||google.com^", "example", "a.com|", "||1.2.3.4^", "google", "||a.com^", "://1.2.", "|example.org|", "org",
-		"||реклама.example^", "счётчик", "||abc.de^", "||track.example.net^", ".track.example.net^", "||ab.cd^", "abc.de"}
+		"||реклама.example^", "счётчик", "||abc.de^", "||track.example.net^", ".track.example.net^", "||ab.cd^", "abc.de",
+		"/^Tracker[0-9]+\\.example\\.com/", "/Example\\.ORG/", "/^Ads[.-]/"}
 	for _, cp := range hostColliders[:3] {
 		netPats = append(netPats, "||"+cp[0]+"^", "||"+cp[1]+"^", cp[0][:4], "/^"+cp[0][:3]+"[0-9]/")
 	}
